@@ -5,6 +5,7 @@ import (
 	"fmt"
 	"io"
 	"net"
+	"os"
 	"sync"
 	"sync/atomic"
 	"time"
@@ -43,10 +44,12 @@ type Endpoint struct {
 var ipCounter atomic.Uint32
 
 // UniqueIP returns a loopback address no other case of this process uses, so that fixed port
-// numbers never collide and "refuses" can be modelled by not binding at all.
+// numbers never collide and "refuses" can be modelled by not binding at all. The second octet starts at a
+// value taken from the process id, so that checks running side by side in different processes (which use the same
+// port numbers) work in different /16 blocks.
 func UniqueIP() string {
 	n := ipCounter.Add(1)
-	return fmt.Sprintf("127.%d.%d.%d", 1+(n>>16)%120, (n>>8)&0xff, n&0xff)
+	return fmt.Sprintf("127.%d.%d.%d", 1+(uint32(os.Getpid())+(n>>16))%120, (n>>8)&0xff, n&0xff)
 }
 
 // Start binds the endpoint (nothing to do for Refuses).
